@@ -2744,6 +2744,10 @@ JANET_CORE_FN(os_open,
     } else if (write_flag && !read_flag) {
         open_flags |= O_WRONLY;
     } else {
+        if (!read_flag) {
+            /* Neither :r nor :w was given, but the file is still opened O_RDWR */
+            janet_sandbox_assert(JANET_SANDBOX_FS_READ | JANET_SANDBOX_FS_WRITE);
+        }
         open_flags |= O_RDWR;
     }
 
